@@ -55,6 +55,10 @@ fn main() {
     }
     let _ = compass_verif::ROOT.set(root.clone());
     compass_verif::hooks::install();
+    // the library prints progress bars to stderr whenever it reads a file; interface lines go to stdout
+    if std::env::var("VERIF_DEBUG").is_err() {
+        let _ = compass_verif::appgen::silence_stderr();
+    }
     if let Some(path) = replay {
         std::process::exit(mon::replay_file(&prop, &path));
     }
